@@ -211,11 +211,11 @@ impl InputState {
         let s: String = self.input.iter().collect();
         if let Some(s) = s.strip_prefix("load ") {
             let file_comp = FilenameCompleter::new();
-            let pos = if self.input_index > 5 {
-                self.input_index - 5
-            } else {
-                0
-            };
+            // The cursor is a char index, the completer wants a byte offset into `s`.
+            let pos = s
+                .char_indices()
+                .nth(self.input_index.saturating_sub(5))
+                .map_or(s.len(), |(byte, _)| byte);
             let comps = file_comp.complete_path(s, pos);
             match comps {
                 Ok((_, comps)) => {
@@ -237,11 +237,11 @@ impl InputState {
         } else if s.starts_with('s') {
             self.curr_completions = Some((vec!["set ".chars().collect()], 0));
         } else if s.starts_with('F') && self.input_index > 1 && self.input_index <= 4 {
-            let comp = match &s[1..2] {
-                "C" => "FC = ",
-                "D" => "FD = ",
-                "E" => "FE = ",
-                "F" => "FF = ",
+            let comp = match self.input.get(1) {
+                Some('C') => "FC = ",
+                Some('D') => "FD = ",
+                Some('E') => "FE = ",
+                Some('F') => "FF = ",
                 _ => return,
             };
             self.curr_completions = Some((vec![comp.chars().collect()], 0));
@@ -267,7 +267,8 @@ impl StatefulWidget for InputWidget {
     type State = InputState;
     fn render(self, area: Rect, buf: &mut Buffer, state: &mut Self::State) {
         let max_string_width = area.width as usize - 3;
-        let mut string: String = state.input.iter().collect();
+        // The input and the cursor are counted in chars, never slice by bytes.
+        let mut string: Vec<char> = state.input.clone();
         let mut start = string.len().saturating_sub(max_string_width);
         // Move start to the left to include the cursor
         if start > 0 && start + 5 > state.input_index {
@@ -275,17 +276,17 @@ impl StatefulWidget for InputWidget {
         }
         // Replace start with dots
         if start > 0 {
-            string = String::from("...") + &string[start + 3..];
+            string = "...".chars().chain(string[start + 3..].iter().copied()).collect();
         }
         // Replace end with dots
         if string.len() > area.width as usize - 3 {
             string.truncate(max_string_width - 3);
-            string += "...";
+            string.extend("...".chars());
         }
         // Draw prompt
         buf.set_stringn(area.x, area.y, "> ", area.width as usize, *helpers::YELLOW);
         // Draw input chars
-        for (i, c) in string.chars().enumerate() {
+        for (i, c) in string.iter().enumerate() {
             buf.set_stringn(
                 area.x + 2 + i as u16,
                 area.y,
